@@ -493,63 +493,8 @@ func checkC02GC(e *core.Env) {
 		c := carriers[i%2]
 		kind := pick(r, ClientStream, ServerStream, Bidi)
 		sc := genDeliveryScript(r, kind, true, false)
-		// handler: consume, wait for the gate, then reply
-		var h []Op
-		gated := false
-		for _, o := range sc.Handler {
-			if o.Op == "send" && !gated {
-				h = append(h, Op{Op: "gate", Gate: "gc"})
-				gated = true
-			}
-			h = append(h, o)
-		}
-		if !gated {
-			h = append(h, Op{Op: "gate", Gate: "gc"})
-		}
-		sc.Handler = h
-		run := c.Svc.NewRun(sc, c.Name)
-		defer c.Svc.Forget(run)
-		res := make(chan error, 1)
-		var started atomic.Bool
-		go lastUseRecv(c.CC, run, &started, res)
-		// wait (logically) until the client is inside its final receive
-		early := false
-		for !started.Load() {
-			select {
-			case err := <-res:
-				e.Inconclusive("C02 gc %s %s: client ended before its final receive: %v", c.Name, sc.Shape(), err)
-				early = true
-			default:
-				time.Sleep(time.Millisecond)
-			}
-			if early {
-				run.ReleaseAll()
-				return
-			}
-		}
-		time.Sleep(20 * time.Millisecond)
-		// GC pressure: two cycles and a sentinel finalizer
-		fin := make(chan struct{})
-		func() {
-			s := new([64]byte)
-			runtime.SetFinalizer(s, func(*[64]byte) { close(fin) })
-		}()
-		for k := 0; k < 3; k++ {
-			runtime.GC()
-		}
-		select {
-		case <-fin:
-		case <-time.After(10 * time.Second):
-			e.Inconclusive("C02 gc: sentinel finalizer did not run")
-		}
-		time.Sleep(20 * time.Millisecond)
-		run.Release("gc")
-		var err error
-		select {
-		case err = <-res:
-		case <-time.After(watchdog):
-			e.Inconclusive("C02 gc %s: watchdog", c.Name)
-			run.ReleaseAll()
+		run, _, err, ok := gcSchedule(e, "C02", c, sc)
+		if !ok {
 			return
 		}
 		e.Eval(fmt.Sprintf("gc|%s|%s", c.Name, kind), true)
@@ -560,22 +505,89 @@ func checkC02GC(e *core.Env) {
 	})
 }
 
+// gcSchedule runs sc with a client whose last use of the stream is a blocking receive (as in generated
+// CloseAndRecv code), makes the handler wait before its first reply, forces garbage collections (with a sentinel
+// finalizer as proof that finalizers ran) while the client is blocked, then lets the handler go on. It returns
+// what the client's final receive loop obtained.
+func gcSchedule(e *core.Env, prop string, c *Carrier, sc *Script) (run *Run, got []*tpb.Message, err error, ok bool) {
+	// handler: consume, wait for the gate, then reply
+	var h []Op
+	gated := false
+	for _, o := range sc.Handler {
+		if o.Op == "send" && !gated {
+			h = append(h, Op{Op: "gate", Gate: "gc"})
+			gated = true
+		}
+		h = append(h, o)
+	}
+	if !gated {
+		h = append(h, Op{Op: "gate", Gate: "gc"})
+	}
+	sc.Handler = h
+	run = c.Svc.NewRun(sc, c.Name)
+	defer c.Svc.Forget(run)
+	res := make(chan lastUseResult, 1)
+	var started atomic.Bool
+	go lastUseRecv(c.CC, run, &started, res)
+	// wait (logically) until the client is inside its final receive
+	for !started.Load() {
+		select {
+		case lr := <-res:
+			e.Inconclusive("%s gc %s %s: client ended before its final receive: %v", prop, c.Name, sc.Shape(), lr.err)
+			run.ReleaseAll()
+			return run, nil, nil, false
+		default:
+			time.Sleep(time.Millisecond)
+		}
+	}
+	time.Sleep(20 * time.Millisecond)
+	// GC pressure: three cycles and a sentinel finalizer
+	fin := make(chan struct{})
+	func() {
+		s := new([64]byte)
+		runtime.SetFinalizer(s, func(*[64]byte) { close(fin) })
+	}()
+	for k := 0; k < 3; k++ {
+		runtime.GC()
+	}
+	select {
+	case <-fin:
+	case <-time.After(10 * time.Second):
+		e.Inconclusive("%s gc: sentinel finalizer did not run", prop)
+	}
+	time.Sleep(20 * time.Millisecond)
+	run.Release("gc")
+	select {
+	case lr := <-res:
+		return run, lr.msgs, lr.err, true
+	case <-time.After(watchdog):
+		e.Inconclusive("%s gc %s: watchdog", prop, c.Name)
+		run.ReleaseAll()
+		return run, nil, nil, false
+	}
+}
+
+type lastUseResult struct {
+	msgs []*tpb.Message
+	err  error
+}
+
 // lastUseRecv mirrors generated CloseAndRecv code: after the last statement
 // nothing refers to the stream any more.
 //
 //go:noinline
-func lastUseRecv(cc grpc.ClientConnInterface, run *Run, started *atomic.Bool, res chan<- error) {
+func lastUseRecv(cc grpc.ClientConnInterface, run *Run, started *atomic.Bool, res chan<- lastUseResult) {
 	ctx := outgoingCtx(run)
 	st, err := cc.NewStream(ctx, run.S.Kind.StreamDesc(), run.S.Kind.Method())
 	if err != nil {
-		res <- err
+		res <- lastUseResult{err: err}
 		return
 	}
 	for _, o := range run.S.Sender {
 		switch o.Op {
 		case "send":
 			if err := st.SendMsg(o.Msg); err != nil {
-				res <- fmt.Errorf("send: %w", err)
+				res <- lastUseResult{err: fmt.Errorf("send: %w", err)}
 				return
 			}
 		case "close":
@@ -583,21 +595,29 @@ func lastUseRecv(cc grpc.ClientConnInterface, run *Run, started *atomic.Bool, re
 		}
 	}
 	started.Store(true)
-	res <- finalRecv(st, run.S.Kind.ServerStreams())
+	msgs, err := finalRecv(st, run.S.Kind.ServerStreams())
+	res <- lastUseResult{msgs: msgs, err: err}
 }
 
 //go:noinline
-func finalRecv(st grpc.ClientStream, multi bool) error {
-	m := new(tpb.Message)
+func finalRecv(st grpc.ClientStream, multi bool) ([]*tpb.Message, error) {
 	if !multi {
-		return st.RecvMsg(m)
+		// the stream value is dead once this call has loaded its receiver
+		m := new(tpb.Message)
+		if err := st.RecvMsg(m); err != nil {
+			return nil, err
+		}
+		return []*tpb.Message{m}, nil
 	}
+	var got []*tpb.Message
 	for {
+		m := new(tpb.Message)
 		if err := st.RecvMsg(m); err != nil {
 			if err == io.EOF {
-				return nil
+				return got, nil
 			}
-			return err
+			return got, err
 		}
+		got = append(got, m)
 	}
 }
